@@ -185,6 +185,18 @@ m("AE2", "X06,C11", AEC, "            P = np.sum(P, axis=0)\n", "            P =
   note="soft voting takes the maximum instead of the sum of the members' probabilities")
 
 
+NICF = "skactiveml/regressor/_nic_kernel_regressor.py"
+m("NK1", "X07,C15,C12", NICF, "        + kappa_1 * kappa_2 * (mu_1 - mu_2) ** 2 / kappa_com\n", "        + kappa_1 * kappa_2 * (mu_1 - mu_2) ** 2\n", occ=1,
+  tests="skactiveml/regressor/tests/test_nic_kernel_regressor.py",
+  note="the prior/data disagreement term of the posterior scatter is not divided by kappa (coherent outputs, wrong variance)")
+m("NK2", "X07,C15,C12", NICF, "        scale = np.sqrt((1 + kappa_post) / kappa_post * sigma_sq_post)", "        scale = np.sqrt(1 / kappa_post * sigma_sq_post)", occ=1,
+  tests="skactiveml/regressor/tests/test_nic_kernel_regressor.py",
+  note="predictive scale without the observation noise term (1 + kappa)")
+m("NK3", "X07,C15,C12", NICF, "    nu_com = nu_1 + nu_2\n", "    nu_com = nu_1 + kappa_2 / 2\n", occ=1,
+  tests="skactiveml/regressor/tests/test_nic_kernel_regressor.py",
+  note="degrees of freedom grow with half of the kernel mass")
+
+
 def load_extra():
     p = os.path.join(os.path.dirname(__file__), "mutants_extra.json")
     if os.path.exists(p):
